@@ -354,7 +354,7 @@ func TestC20(t *testing.T) {
 	alpha := c20Alphabet()
 	maxn := 3
 	if thorough() {
-		maxn = 4
+		maxn = 5
 	}
 	idx := 0
 	var rec func(prefix []c20Op)
@@ -380,7 +380,7 @@ func TestC20(t *testing.T) {
 	// (b) random longer histories
 	n := 20000
 	if thorough() {
-		n = 600000
+		n = 6000000
 	}
 	n /= nsh
 	var exprs []string
